@@ -196,3 +196,84 @@ contract(V3 + ".write",
 def v3_data_packet(proto, ctr, data):
     """some encrypted request for (ctr, data) under the protocol's session key (random padding left open)"""
     return proto._encode_encrypted_request(ctr, data)
+
+
+contract(V3 + ".read",
+         params={"self": "obj:" + V3, "timeout": "int[0,60]"},
+         rtype="bytes",
+         modifies=["self._queue"],
+         raises={LAN + "ProtocolError": {}, "builtins.TimeoutError": {"when": "timeout != 0"},
+                 "asyncio.QueueEmpty": {"when": "timeout == 0"}},
+         notes="C09: whatever was queued, reading it ends in decoded bytes, a protocol error or a timeout")
+
+contract(LAN + "_LanProtocol.read",
+         params={"self": "obj:" + LAN + "_LanProtocol", "timeout": "int[0,60]"},
+         rtype="bytes",
+         modifies=["self._queue"],
+         raises={"builtins.TimeoutError": {"when": "timeout != 0"}, "asyncio.QueueEmpty": {"when": "timeout == 0"}})
+
+contract(V3 + ".authenticate",
+         params={"self": "obj:" + V3, "token": "opt:bytes", "key": "opt:bytes[32]"},
+         requires=["self._transport is not None", "0 <= self._packet_id <= 0xFFF", "implies(token is not None, len(token) <= 65000)"],
+         modifies=["self._local_key", "self._local_key_expiration", "self._packet_id", "self._queue"],
+         post_let={"T": "events('tx')"},
+         raises={LAN + "AuthenticationError": {"post": {
+                     "session_stays_unauthenticated": "self._local_key == old(self._local_key) and same_object(self._local_key_expiration, old(self._local_key_expiration))",
+                     "only_handshake_requests_sent": "len(events('tx')) <= 1 and implies(len(events('tx')) == 1, events('tx')[0] == hs_request(old(self._packet_id), token))"}},
+                 "builtins.TimeoutError": {"post": {
+                     "session_stays_unauthenticated": "self._local_key == old(self._local_key) and same_object(self._local_key_expiration, old(self._local_key_expiration))",
+                     "only_handshake_requests_sent": "len(events('tx')) == 1 and events('tx')[0] == hs_request(old(self._packet_id), token)"}}},
+         ensures={"credentials_present": "token is not None and key is not None and len(token) > 0",
+                  "one_handshake_request": "len(T) == 1 and T[0] == hs_request(old(self._packet_id), token)",
+                  "session_key_set": "self._local_key is not None and len(self._local_key) == 32",
+                  "expires_in_12h": "self._local_key_expiration is not None"})
+
+
+# ---- C04: V3 stream reassembly ------------------------------------------------------------------------------------------
+from pyvc.dsl import byte_at, forall
+
+
+def marker_at(s, j):
+    return byte_at(s, j) == 0x83 and byte_at(s, j + 1) == 0x70
+
+
+def no_marker(s, a, z):
+    """no start marker lies completely inside s[a:z]"""
+    return forall(a, z - 1, lambda j: not marker_at(s, j))
+
+
+def packet_at(s, b, st, en):
+    """after marker-free bytes s[b:st] a complete well-formed packet s[st:en] follows"""
+    return (b <= st and st + 8 <= en and en <= len(s) and no_marker(s, b, st + 1) and marker_at(s, st)
+            and en == st + 8 + int.from_bytes(s[st + 2:st + 4], "big"))
+
+
+def holds_complete_packet(buf):
+    """the buffer still contains a deliverable packet at its first start marker"""
+    r = buf.find(b"\x83\x70")
+    return r >= 0 and len(buf) - r >= 6 and len(buf) - r >= int.from_bytes(buf[r + 2:r + 4], "big") + 8
+
+
+contract(V3 + ".data_received",
+         params={"self": "obj:" + V3, "S": "bytes", "b0": "int[0,1099511627776]", "pos": "int[0,1099511627776]", "pos2": "int[0,1099511627776]"},
+         requires=["b0 <= pos and pos <= pos2 and pos2 <= len(S)", "self._buffer == S[b0:pos]"],
+         let={"data": "S[pos:pos2]"},
+         bind={"data": "data"},
+         modifies=["self._buffer", "self._queue"],
+         raises={},
+         ensures={"buffer_is_the_unconsumed_tail": "self._buffer == S[final('b'):pos2] and b0 <= final('b') <= pos2",
+                  "nothing_deliverable_is_withheld": "not holds_complete_packet(self._buffer)"},
+         loops={"0": {
+             "ghost_init": {"b": "b0", "st": "0", "en": "0"},
+             "modifies": ["self._buffer", "self._queue"],
+             "havoc": {"b": "int[0,1099511627776]", "st": "int[0,1099511627776]", "en": "int[0,1099511627776]",
+                       "self._buffer": "bytearray", "self._queue": "ext:queue:v3_queued"},
+             "define": {"self._buffer": "bytearray(S[b:pos2])"},
+             "invariant": ["b0 <= b and b <= pos2"],
+             "assume": ["no_marker(S, b, len(S)) or packet_at(S, b, st, en)"],
+             "ghost_step": {"b": "pre(en)"},
+             "step_hints": {"marker_found_is_the_packet_start": "start == pre(st) - pre(b)",
+                            "size_field_is_the_packet_length": "total_size == pre(en) - pre(st)"},
+             "step_ensures": {
+                 "delivers_exactly_the_next_packet_once": "len(events('queued')) == pre(len(events('queued'))) + 1 and events('queued')[-1] == S[pre(st):pre(en)]",
+             }}})
